@@ -7812,7 +7812,7 @@ class SFTPServer:
         if posixpath.isabs(oldpath):
             oldpath = self.map_path(oldpath)
         else:
-            newdir = posixpath.dirname(newpath)
+            newdir = posixpath.dirname(posixpath.normpath(newpath))
             abspath1 = self.map_path(posixpath.join(newdir, oldpath))
 
             mapped_newdir = self.map_path(newdir)
